@@ -33,6 +33,7 @@ type immutCase struct {
 	Kind    string      `json:"kind"`
 	Depth   int         `json:"depth"`
 	Size    string      `json:"size"`
+	Plen    int         `json:"plen"`
 	History []laterRead `json:"history"`
 }
 type immutLine struct {
@@ -48,7 +49,7 @@ type immutLine struct {
 	Detail  string      `json:"detail"`
 }
 
-func immutAVPs(kind string, alt bool) []*diam.AVP {
+func immutAVPs(kind string, alt bool, plen int) []*diam.AVP {
 	x := byte(0)
 	if alt {
 		x = 0xFF
@@ -78,6 +79,12 @@ func immutAVPs(kind string, alt bool) []*diam.AVP {
 			return diam.NewAVP(9010, 0x40, 0, datatype.OctetString(b(1, 2, 3, 4, 5, 6, 7)))
 		case "octets300": // long enough for any size-dependent decoding path, still inside the 1 KiB pooled buffer
 			return diam.NewAVP(9010, 0x40, 0, datatype.OctetString(bytes.Repeat(b(0x41), 300)))
+		case "octetsN":
+			return diam.NewAVP(9010, 0x40, 0, datatype.OctetString(bytes.Repeat(b(0x42), plen)))
+		case "utf8N":
+			return diam.NewAVP(9011, 0x40, 0, datatype.UTF8String(bytes.Repeat(b('r'), plen)))
+		case "unknownN":
+			return diam.NewAVP(7777, 0, 0, datatype.Unknown(bytes.Repeat(b(0x43), plen)))
 		case "utf8300":
 			return diam.NewAVP(9011, 0x40, 0, datatype.UTF8String(bytes.Repeat(b('q'), 300)))
 		case "utf8":
@@ -101,7 +108,11 @@ func immutAVPs(kind string, alt bool) []*diam.AVP {
 
 func immutWire(c *immutCase, size string, alt bool, dp *dict.Parser) []byte {
 	m := diam.NewMessage(abs.VCmd, 0x80, abs.VApp, 0x10203040, 0x50607080, dp)
-	avps := immutAVPs(c.Kind, alt)
+	plen := c.Plen
+	if plen == 0 {
+		plen = 1016 - 8*c.Depth // the body fills the 1 KiB pooled read buffer exactly
+	}
+	avps := immutAVPs(c.Kind, alt, plen)
 	for d := 0; d < c.Depth; d++ {
 		code := uint32(9018)
 		if d%2 == 1 {
